@@ -34,7 +34,7 @@ PLAN = {
     "C06": ([("budget", 500, ["-listeners", "3", "-maxcycle", "5"]), ("control", 150, ["-listeners", "2"]),
              ("fault", 100, ["-flagp", "0.5"]), ("budget", 12, ["-cancel", "-maxcycle", "4"])],
             ["C06", "C06q"], "a run that exhausted its cycle budget, or reached quiescence after at least one firing"),
-    "C08": ([("control", 300, ["-calls", "3", "-mode", "mixed", "-variants", "fresh,reloaded"]),
+    "C08": ([("reuse", 1, []), ("control", 300, ["-calls", "3", "-mode", "mixed", "-variants", "fresh,reloaded"]),
              ("fault", 200, ["-calls", "3", "-mode", "mixed", "-flagp", "0.3"]),
              ("core", 200, ["-calls", "3", "-mode", "mixed"]),
              ("control", 10, ["-calls", "2", "-cancel", "-maxcycle", "4"])],
@@ -52,6 +52,11 @@ PLAN = {
             ["C15"], "the context was cancelled at an observable point of the run (every point of every generated run is tried)"),
 }
 
+# profile -> (module, configuration, harness sub-command, what the model is)
+EXPORTED = {
+    "pattern": ("GruleMemo.tla", "MCMemo.cfg", "pattern-traces", "taint abstraction of the working memory, invariant MemoSound, dependency patterns"),
+    "reuse": ("GruleReuse.tla", "MCReuse.cfg", "reuse-traces", "call histories on one instance (3 call kinds x 5 endings, depth 3), invariant FreshAtStart"),
+}
 MODEL = {"quick": ("MCEngine.tla", "MCEngineQuick.cfg"), "thorough": ("MCEngine.tla", "MCEngine.cfg")}
 THOROUGH_FACTOR = 12
 
@@ -60,22 +65,25 @@ def run_batch(gh, idx, profile, n, extra, seed, reps=2):
     d = os.path.join(scratch(), "b%d" % idx)
     os.makedirs(d, exist_ok=True)
     extra_model = None
-    if profile == "pattern":
-        # layer M: TLC exhausts the taint model (MemoSound) and exports every dependency pattern; each is instantiated and run
-        res = tlc(None, "GruleMemo.tla", "MCMemo.cfg", os.path.join(d, "export"), workers=4, timeout=3000)
+    if profile in EXPORTED:
+        # a TLA+ model is exhausted by TLC (its invariants checked) and every exported case is instantiated and run
+        tla, cfg, subcmd, what = EXPORTED[profile]
+        res = tlc(None, tla, cfg, os.path.join(d, "export"), workers=4, timeout=3000)
         if not res["ok"]:
-            tlc_failed(res, "GruleMemo.tla / MCMemo.cfg (MemoSound)")
+            tlc_failed(res, "%s / %s" % (tla, cfg))
         seen = set()
-        with open(os.path.join(d, "patterns.ndjson"), "w") as o:
+        with open(os.path.join(d, "exported.ndjson"), "w") as o:
             for line in res["out"].splitlines():
                 if line.startswith('"CASE '):
                     s = json.loads(line)[5:]
                     if s not in seen:
                         seen.add(s)
                         o.write(s + "\n")
-        extra_model = {"what": "GruleMemo.tla / MCMemo.cfg: taint abstraction of the working memory, invariant MemoSound, %d dependency patterns exported" % len(seen),
+        extra_model = {"what": "%s / %s: %s; %d cases exported" % (tla, cfg, what, len(seen)),
                        "distinct": res["distinct"], "generated": res["generated"], "patterns": len(seen)}
-        cmd = [gh, "pattern-traces", "-in", "patterns.ndjson", "-worlds", str(n), "-seed", str(seed), "-out", "trace.ndjson", "-cases", "cases.ndjson"]
+        cmd = [gh, subcmd, "-in", "exported.ndjson", "-seed", str(seed), "-out", "trace.ndjson", "-cases", "cases.ndjson"]
+        if profile == "pattern":
+            cmd += ["-worlds", str(n)]
     elif profile.startswith("grb:"):
         # C12 fault enumeration on the stored stream (truncation offsets, failing writer); traces only of prefixes that load
         cmd = [gh, "grb-faults", "-profile", profile[4:], "-seed", str(seed), "-n", str(n), "-out", "trace.ndjson", "-cases", "cases.ndjson"] + extra
@@ -204,6 +212,8 @@ def evaluate(prop, batches, marks, rule, thorough_factor=None):
             parts = total  # one rule set per process
         if profile == "pattern":
             parts, total = 1, (n if tier == "quick" else 4 * n)  # fact states per pattern
+        if profile == "reuse":
+            parts, total = 1, 1
 
         for part in range(parts):
             jobs.append((idx, profile, total // parts, extra, seed * 7919 + idx * 101 + part))
